@@ -16,7 +16,13 @@ GROUPS = {
     'G5': (['C17', 'C18', 'C19', 'C20'], 'falcon/asgi/ws.py, falcon/asgi/app.py (websocket parts), falcon/middleware.py, falcon/app.py '
            '(construction / first-request paths), falcon/routing/compiled.py (locking / lazy compilation)'),
 }
-KINDS = {'1': '''The four changes must be of these kinds, one each:
+KINDS = {'3': '''The four changes must be CORRECT rewrites of the RISKIEST kinds of code, one of each kind:
+  change 1: a rewrite of an ERROR / CLEAN-UP path that is still complete and exact: restructure a try / except / finally, narrow or widen an except clause without changing which documented errors come out, close or release something at an equivalent earlier or later point (still exactly once, also when something fails or the task is cancelled);
+  change 2: a rewrite of CONCURRENCY- or STATE-related code that is still safe: narrow a lock's scope without opening a window, replace a per-call allocation by a safely shared immutable object, reorder the publication of state so that readers still never see a half-built state, make a lazily built table eager;
+  change 3: replace a PRIMITIVE by an equivalent one for every input in the domain: a regular expression by string methods or vice versa, a chain of ifs by a table, partition by split with a max count, str.format by an f-string, a manual loop by a library call - think hard about the corner cases (empty input, repeated separators, non-ASCII, case, trailing characters) and only deliver it if it is really equivalent;
+  change 4: REORDER statements, checks or header / attribute assignments whose order is not observable through any property (two independent validations that raise the same documented error for overlapping inputs are NOT independent if they raise different errors - be careful).
+
+''', '1': '''The four changes must be of these kinds, one each:
   change 1: a pure REFACTORING of code the properties depend on — restructure control flow, extract or inline a helper, rename private attributes / local variables / private methods, replace a loop by a comprehension or vice versa — with identical observable behaviour;
   change 2: a correct PERFORMANCE OPTIMISATION of code the properties depend on — a fast path, a cache, avoiding a copy, precomputing a table — whose result is identical to the general path for every input (be careful: it really must be identical);
   change 3: a change of behaviour the properties deliberately leave OPEN — e.g. the wording of an error title / description / exception message, the text of a log or warning, a repr, the order of response headers where order carries no meaning, the exact value chosen where the property allows several — while everything the properties do pin down stays the same;
